@@ -77,7 +77,7 @@ theorem nodesWithId_track_id (d : Doc) (h : WF d) (ds dt : Bool) (out : Out) (hc
   rw [hcells] at hlen hval ⊢
   have hlen' : values.length = out.nodes.length := by simpa using hlen
   unfold nodesWithId
-  simp only [List.length_map, hlen', and_self, if_true]
+  simp only [List.length_map, hlen', and_self, or_true, if_true]
   rw [selected_eq_filterMap (trackIdOf d) out.nodes values hlen' hval, hnodes]
   rfl
 
